@@ -34,10 +34,15 @@ def run(ctx):
     prep_specs(ctx, cat, pre, ["MC_CommonUnit.tla", "Gen_Common.tla", "Gen_Common.cfg", "Trace_Common.tla", "Trace_Common.cfg"])
     invs = "GcdMagnitude SameDim IntegerCofactors JointlyCoprime IsAnInputWhenPossible Symmetric Nesting"
     mcfg = ctx.write("MC_CommonUnit.cfg", "CONSTANTS Cat <- CatDef Pre <- PrefixDef MaxLen = 3\nSPECIFICATION Spec\nINVARIANTS %s\n" % invs)
-    a = ctx.tlc(ctx.path("MC_CommonUnit.tla"), cfg=mcfg, timeout=3000, name="layerA common unit", xmx="16g", workers=8, allow_violation=True)
-    if a.violated:
-        raise core.ToolError("Layer A: invariant %s of MC_CommonUnit fails\n%s" % (a.violated, "\n".join(a.out.splitlines()[-30:])))
-    ctx.layers["A"] = {"module": "MC_CommonUnit.tla (CommonUnit.tla)", "distinct": a.distinct, "invariants": invs.split(), "exhaustive": True}
+    import concurrent.futures as _cf
+    _ex = _cf.ThreadPoolExecutor(max_workers=1)
+    _fa = _ex.submit(lambda: ctx.tlc(ctx.path("MC_CommonUnit.tla"), cfg=mcfg, timeout=3000, name="layerA common unit", xmx="16g", workers=6, allow_violation=True))
+
+    def finish_layer_a():
+        a = _fa.result()
+        if a.violated:
+            raise core.ToolError("Layer A: invariant %s of MC_CommonUnit fails\n%s" % (a.violated, "\n".join(a.out.splitlines()[-30:])))
+        ctx.layers["A"] = {"module": "MC_CommonUnit.tla (CommonUnit.tla)", "distinct": a.distinct, "invariants": invs.split(), "exhaustive": True}
     g = ctx.tlc(ctx.path("Gen_Common.tla"), env={"TIER": ctx.tier}, timeout=1800, name="gen common-unit lists")
     if not g.ok or len(g.cases) != g.distinct or not g.cases:
         raise core.ToolError("Gen_Common failed\n" + g.out[-1500:])
@@ -147,3 +152,4 @@ def run(ctx):
         ctx.sample({"list": [expr_str(e) for e in c["es"]], "cofactors": c["cof"], "equiv_input": c["equiv_input"]})
     ctx.layers["B"] = dict(stats, lists=len(cases), configs=cfgs, compiles=ncomp[0])
     ctx.layers["C"] = {"cofactor_readouts_validated_by_TLC": nval}
+    finish_layer_a()
